@@ -38,6 +38,8 @@ type Case struct {
 	Must    string  `json:"must"`  // acceptance rule of the spec: "ok" | "err" | "any"
 	Model   string  `json:"model"` // outcome of the spec's abstract client (informational)
 	Info    bool    `json:"info"`  // informational RPC: the statement makes no binding claim
+	// Unservable: a request the client accepts but the honest reference host refuses.
+	Unservable bool `json:"unservable"`
 	// Classes maps Fault.String() to the class the spec's Catalog gives the fault
 	// ("unbind" | "evidence" | "neutral" | "coherent" | "info" | "random").
 	Classes map[string]string `json:"classes"`
